@@ -204,6 +204,13 @@ known("F13b", SCP + ["C15"],
       ["missing_outcome", "missed_deadlock", "missed_leak", "missed_race", "bounded_only_failure", "bounded_result_not_in_unbounded"], "op_after_spurious_wait",
       case("C08", "known", "t0: spawn(1); Lock(m=0); Incr(m=0); NfNotify(n=0); Unlock(m=0); join(1) || t1: NfWait(n=0); Lock(m=0); Incr(m=0); Unlock(m=0)"))
 
+known("F10", ["C04"],
+      "two SeqCst fences order non-atomic accesses although no atomic access connects them: fence(SeqCst) joins a global clock in "
+      "both directions, i.e. acts as a happens-before edge between any two SeqCst fences in execution order (and fences are no "
+      "scheduling points): t1: c0.write; fence(sc) || t2: fence(sc); c0.read is never reported as a race (src/rt/thread.rs seq_cst_fence)",
+      ["missed_race"], "sc_fence_pair",
+      case("C04", "known", "t0: spawn(1); spawn(2) || t1: CellWrite(c=0); fence(sc) || t2: fence(sc); CellRead(c=0)"))
+
 if __name__ == "__main__":
     out = os.path.join(os.path.dirname(os.path.abspath(__file__)), "..", "known_findings.json")
     json.dump({"findings": F}, open(out, "w"), indent=1)
